@@ -432,6 +432,8 @@ def cmd_check(prop, tier, only_unit=None, only_inst=None, verbose=False):
         if run.violations:
             for v in run.violations:
                 print(v)
+            for u in run.undecided[:12]:
+                print('  also undecided: %s' % u.replace('\n', ' ')[:700])
             return 1
         if run.undecided:
             for u in run.undecided[:12]:
